@@ -201,62 +201,65 @@ def _body_open(toks, i, end):
     return None
 
 
+def _step_candidates(toks, step, lo, hi):
+    pat = texts(tokenize(step))
+    cands = []
+    for i in find_seq(toks, pat, lo, hi, depth0_only=True):
+        o = _body_open(toks, i + len(pat), hi)
+        if o is None:
+            continue
+        cands.append((i, o, match_close(toks, o)))
+    if pat[0] == "impl" and not cands:
+        # allow `impl<...> Rest`
+        rest = pat[1:]
+        for i in find_seq(toks, ["impl"], lo, hi, depth0_only=True):
+            j = i + 1
+            if j < hi and toks[j].s == "<":
+                d = 0
+                while j < hi:
+                    if toks[j].s == "<":
+                        d += 1
+                    elif toks[j].s == ">":
+                        d -= 1
+                        if d == 0:
+                            break
+                    j += 1
+                j += 1
+            if texts(toks[j:j + len(rest)]) == rest:
+                o = _body_open(toks, j + len(rest), hi)
+                if o is not None:
+                    cands.append((i, o, match_close(toks, o)))
+    if pat[0] == "impl":
+        # `impl X` must not match `impl Tr for X` (and vice versa)
+        flt = []
+        for (i, o, c) in cands:
+            hdr = texts(toks[i:o])
+            if ("for" in hdr) == ("for" in pat):
+                flt.append((i, o, c))
+        cands = flt
+    return cands
+
+
 def locate(toks, path):
     """path: list of steps such as 'trait IntoRangeMapSafe', 'impl Module for MinidumpModule',
     'mod bitflip', 'fn memory_range'.  Each step is matched as a token sequence at brace depth 0
-    of the enclosing container and must match exactly once.  Returns (start, open, close) token
-    indices of the final item: start = first token of the item (`fn`, or its leading
-    qualifiers), open/close = its body braces."""
-    lo, hi = 0, len(toks)
-    res = None
-    for si, step in enumerate(path):
-        pat = texts(tokenize(step))
-        cands = []
-        for i in find_seq(toks, pat, lo, hi, depth0_only=True):
-            # next token must not continue an identifier-ish path for `fn name` (name is complete
-            # because tokens are whole identifiers).  For impl headers allow generics after `impl`.
-            o = _body_open(toks, i + len(pat), hi)
-            if o is None:
-                continue
-            # the header between the pattern and `{` must not contain another item keyword
-            cands.append((i, o, match_close(toks, o)))
-        if pat[0] == "impl" and not cands:
-            # allow `impl<...> Rest`
-            rest = pat[1:]
-            for i in find_seq(toks, ["impl"], lo, hi, depth0_only=True):
-                j = i + 1
-                if j < hi and toks[j].s == "<":
-                    d = 0
-                    while j < hi:
-                        if toks[j].s == "<":
-                            d += 1
-                        elif toks[j].s == ">":
-                            d -= 1
-                            if d == 0:
-                                break
-                        j += 1
-                    j += 1
-                if texts(toks[j:j + len(rest)]) == rest:
-                    o = _body_open(toks, j + len(rest), hi)
-                    if o is not None:
-                        cands.append((i, o, match_close(toks, o)))
-        if pat[0] == "impl":
-            # `impl X` must not match `impl X for Y` / `impl Tr for X` unless asked:
-            # keep only candidates whose header (between pattern end and `{`) has no `for`
-            flt = []
-            for (i, o, c) in cands:
-                hdr = texts(toks[i:o])
-                if ("for" in hdr) == ("for" in pat):
-                    flt.append((i, o, c))
-            cands = flt
-        if len(cands) != 1:
-            raise LostAnchor("item step %r matched %d times" % (step, len(cands)))
-        i, o, c = cands[0]
-        res = (i, o, c)
-        lo, hi = o + 1, c
-    i, o, c = res
+    of the enclosing container; the *whole path* must resolve to exactly one item (several
+    `impl X` blocks may exist as long as only one contains the named fn).  Returns
+    (start, open, close) token indices of the final item."""
+    found = []
+
+    def rec(k, lo, hi):
+        for (i, o, c) in _step_candidates(toks, path[k], lo, hi):
+            if k + 1 == len(path):
+                found.append((i, o, c))
+            else:
+                rec(k + 1, o + 1, c)
+
+    rec(0, 0, len(toks))
+    if len(found) != 1:
+        raise LostAnchor("item path %r matched %d times" % (" :: ".join(path), len(found)))
+    i, o, c = found[0]
     # pull in leading qualifiers of a fn
-    quals = {"pub", "async", "const", "unsafe", "crate", "super"}
     j = i
     while j > 0:
         p = toks[j - 1].s
